@@ -47,6 +47,12 @@ pub fn run_tx3c_with(src: &str, extra: &[String], files: &[(String, String)]) ->
 
 /// `preexisting`: content already sitting at the output path when the build starts (an older artifact)
 pub fn run_tx3c_over(src: &str, extra: &[String], files: &[(String, String)], preexisting: Option<&[u8]>) -> Result<Vec<u8>, String> {
+    run_tx3c_in(src, extra, files, preexisting, &[])
+}
+
+/// `process_env`: variables set in the environment of the tx3c process (a build is a function of its source, its
+/// command line and the files named there - not of the shell it happens to run in)
+pub fn run_tx3c_in(src: &str, extra: &[String], files: &[(String, String)], preexisting: Option<&[u8]>, process_env: &[(String, String)]) -> Result<Vec<u8>, String> {
     let n = SERIAL.fetch_add(1, Ordering::SeqCst);
     let dir = format!("{}/.work", crate::runner::verif_dir());
     let _ = std::fs::create_dir_all(&dir);
@@ -70,6 +76,7 @@ pub fn run_tx3c_over(src: &str, extra: &[String], files: &[(String, String)], pr
     let res = std::process::Command::new(tx3c_bin())
         .args(["build", &srcp, "--emit", "tii", "-o", &outp])
         .args(&extra)
+        .envs(process_env.iter().map(|(k, v)| (k.as_str(), v.as_str())))
         .stdout(std::process::Stdio::null())
         .stderr(std::process::Stdio::piped())
         .output();
@@ -131,8 +138,14 @@ pub fn check_command_line(tape: &[u16], rc: &mut RCase) -> Result<(), Failure> {
     }
     let rendered = || json!({"source": plain, "command_line": args, "env_files": files.iter().map(|f| f.1.clone()).collect::<Vec<_>>()});
     let mut first: Option<Vec<u8>> = None;
+    // every other run happens in a shell that has variables of the env files' names, with other values
+    let keys: Vec<String> = files.iter().flat_map(|f| f.1.lines().filter_map(|l| l.split('=').next().map(|k| k.to_string()))).collect();
     for i in 0..5 {
-        match run_tx3c_with(&plain, &args, &files) {
+        let shell: Vec<(String, String)> = if i % 2 == 1 { keys.iter().map(|k| (k.clone(), format!("{}", 777_000 + i))).collect() } else { vec![] };
+        if !shell.is_empty() {
+            rc.label("run_with_variables_of_the_env_files_names_in_the_process_environment");
+        }
+        match run_tx3c_in(&plain, &args, &files, None, &shell) {
             Err(e) => {
                 // a command line the tool refuses is refused every time; not a determinism question
                 rc.label("tx3c_refused_command_line");
